@@ -24,6 +24,14 @@ CntMax == <<HiMax, WireMod - 1>>
 CntZero == <<0, 0>>
 CntInc(c) == IF c[2] = WireMod - 1 THEN <<c[1] + 1, 0>> ELSE <<c[1], c[2] + 1>>
 CntLt(a, b) == a[1] < b[1] \/ (a[1] = b[1] /\ a[2] < b[2])
+\* ADR_ACK_CNT: an unsigned 32-bit value as <<hi16, lo16>> (a persisted session may carry any value), incremented
+\* with saturation; AdrLimit + AdrDelay < 65536
+AdrZero == <<0, 0>>
+AdrInc(c) == IF c = <<65535, 65535>> THEN c ELSE IF c[2] = 65535 THEN <<c[1] + 1, 0>> ELSE <<c[1], c[2] + 1>>
+AdrGe(c, n) == c[1] > 0 \/ c[2] >= n
+AdrVal(c) == c[1] * 65536 + c[2]           \* only where the value is known to be small (model checking)
+\* (c - AdrLimit) % AdrDelay = 0, evaluated without leaving the 32-bit integers
+AdrOnStep(c) == ((c[1] % AdrDelay) * (65536 % AdrDelay) + c[2] + AdrDelay - (AdrLimit % AdrDelay)) % AdrDelay = 0
 
 \* The unique counter N with N == wire (mod WireMod) and last < N <= last + MaxGap (N <= CntMax),
 \* or <<>> when there is none.  Before the first downlink of a session any wire value is taken
@@ -73,7 +81,7 @@ InitCfg(r) == [dr |-> DefaultDr(r), txp |-> None, rx1off |-> 0, rx2dr |-> None, 
                rx1delay |-> 1000, adr |-> TRUE]
 NoKey == <<>>
 EmptySess == [nwk |-> NoKey, app |-> NoKey, addr |-> <<0, 0, 0, 0>>, up |-> CntZero, down |-> <<>>,
-              adrCnt |-> 0, pending |-> <<>>, ackOwed |-> FALSE, confirmed |-> FALSE]
+              adrCnt |-> AdrZero, pending |-> <<>>, ackOwed |-> FALSE, confirmed |-> FALSE]
 NewSess(nwk, app, addr) == [EmptySess EXCEPT !.nwk = nwk, !.app = app, !.addr = addr]
 
 InitMac(r, maxpw, gain) ==
@@ -81,7 +89,11 @@ InitMac(r, maxpw, gain) ==
      sess |-> EmptySess, cfg |-> InitCfg(r), plan |-> InitPlan(r), maxpw |-> maxpw, gain |-> gain,
      \* optional build: certification-protocol handler compiled in; frame type override it can set
      \* (-1 none, 0 all uplinks unconfirmed, 1 all uplinks confirmed)
-     cert |-> FALSE, ovr |-> -1]
+     cert |-> FALSE, ovr |-> -1,
+     \* fixed plans, join bias (a preferred sub-band sb for the first `max` join attempts, 0: none): n counts the
+     \* attempts and the data uplinks sent under the bias since the last channel mask was received; `was`: the
+     \* uplink being prepared may go out under the bias
+     jw |-> [sb |-> 0, max |-> 0, n |-> 0, was |-> FALSE]]
 
 Joined(m) == m.act = "joined"
 
@@ -234,7 +246,9 @@ Invalid(m, q) ==
 Effect(m, q) ==
     CASE q.kind = "adr" ->
            LET o == AdrOutcome(m, q)
-           IN [m EXCEPT !.cfg.dr = o.dr, !.cfg.txp = o.txp, !.plan.mask = o.mask]
+           \* (fixed plans: a channel mask from the network ends the join bias)
+           IN [m EXCEPT !.cfg.dr = o.dr, !.cfg.txp = o.txp, !.plan.mask = o.mask,
+                        !.jw.n = IF IsFixed(m.region) THEN 0 ELSE @]
       [] q.kind = "rxparam" ->
            [m EXCEPT !.cfg.rx1off = q.off, !.cfg.rx2dr = IF q.dr = 15 THEN m.cfg.rx2dr ELSE q.dr, !.cfg.rx2f = q.freq]
       [] q.kind = "timing" -> [m EXCEPT !.cfg.rx1delay = 1000 * (IF q.del = 0 THEN 1 ELSE q.del)]
@@ -264,7 +278,7 @@ Queue(pending, ans, n) ==
 
 \* ------------------------------------------------------------------ uplinks
 \* header fields of the next data uplink and the state after preparing it
-AdrAckReq(m) == m.cfg.adr /\ m.sess.adrCnt >= AdrLimit /\ LowerDr(m.region, m.cfg.dr) # None
+AdrAckReq(m) == m.cfg.adr /\ AdrGe(m.sess.adrCnt, AdrLimit) /\ LowerDr(m.region, m.cfg.dr) # None
 
 \* the frame type an uplink really gets (TS009 TxFramesCtrlReq may override the application's choice)
 EffConfirmed(m, confirmed) == IF m.ovr = -1 THEN confirmed ELSE m.ovr = 1
@@ -279,8 +293,15 @@ UplinkFields(m, port, confirmed) ==
      port |-> port,
      macPayload |-> IF port = 0 THEN m.sess.pending ELSE <<>>]
 
+\* The join bias of the fixed plans is still in force for data uplinks: a preferred sub-band was configured with
+\* several tries, the device joined before they were used up and has not received a channel mask since (CFList or
+\* accepted LinkADRReq).  Such an uplink may go out on the preferred sub-band at the join data rate instead of the
+\* configured one, and counts as a try.  (The device may also have dropped the bias earlier - when the channel it
+\* drew there is masked off - which no observation distinguishes: "maybe".)
+BiasMaybe(m) == IsFixed(m.region) /\ m.jw.sb > 0 /\ 0 < m.jw.n /\ m.jw.n < m.jw.max
 AfterSendPrepare(m, confirmed) ==
-    [m EXCEPT !.sess.ackOwed = FALSE, !.sess.confirmed = EffConfirmed(m, confirmed), !.sess.pending = Sticky(m.sess.pending)]
+    [m EXCEPT !.sess.ackOwed = FALSE, !.sess.confirmed = EffConfirmed(m, confirmed), !.sess.pending = Sticky(m.sess.pending),
+              !.jw = IF BiasMaybe(m) THEN [m.jw EXCEPT !.n = @ + 1, !.was = TRUE] ELSE [m.jw EXCEPT !.was = FALSE]]
 
 \* ------------------------------------------------------------------ end of the receive procedure
 SessionExpired(m) == m.sess.up = CntMax
@@ -293,8 +314,8 @@ Rx2CompleteResp(m) ==
 
 AfterRx2Complete(m) ==
     IF ~Joined(m) \/ SessionExpired(m) THEN m
-    ELSE LET c == IF m.cfg.adr THEN m.sess.adrCnt + 1 ELSE m.sess.adrCnt
-             step == m.cfg.adr /\ c >= AdrLimit + AdrDelay /\ (c - AdrLimit) % AdrDelay = 0
+    ELSE LET c == IF m.cfg.adr THEN AdrInc(m.sess.adrCnt) ELSE m.sess.adrCnt
+             step == m.cfg.adr /\ AdrGe(c, AdrLimit + AdrDelay) /\ AdrOnStep(c)
                      /\ LowerDr(m.region, m.cfg.dr) # None
          IN [m EXCEPT !.sess.up = CntInc(m.sess.up),
                       !.sess.adrCnt = c,
@@ -378,7 +399,7 @@ DownRequests(v) ==
 
 AfterRxAccepted(m, v, sts, margin) ==
     LET reqs == DownRequests(v)
-        m1 == [m EXCEPT !.sess.down = v.n, !.sess.adrCnt = 0,
+        m1 == [m EXCEPT !.sess.down = v.n, !.sess.adrCnt = AdrZero,
                         !.sess.pending = IF v.classA THEN <<>> ELSE m.sess.pending]
         m2 == FoldRequests(m1, reqs, sts)
         q  == Queue(m2.sess.pending, AnswersFor(m.region, reqs, sts, margin), 0)
@@ -394,7 +415,8 @@ Delivered(m, v) == ~SessionExpired(m) /\ v.port > 0 /\ (IsCert(m, v) => CertOf(m
 
 \* ------------------------------------------------------------------ join
 AfterJoinReq(m, devNonce, appKey) ==
-    [m EXCEPT !.act = "joining", !.devNonce = devNonce, !.appKey = appKey, !.sess = EmptySess]
+    [m EXCEPT !.act = "joining", !.devNonce = devNonce, !.appKey = appKey, !.sess = EmptySess,
+              !.jw = [@ EXCEPT !.n = IF m.jw.sb > 0 /\ m.jw.n < m.jw.max THEN m.jw.n + 1 ELSE m.jw.n, !.was = FALSE]]
 
 \* ja: [devAddr, dlSettings, rxDelay, cflist (16 bytes or <<>>)], keys derived by the caller
 CfListApplied(r, plan, cflist) ==
@@ -425,10 +447,12 @@ AfterJoinAccept(m, ja, nwk, app) ==
                  !.cfg.rx1delay = 1000 * (IF del = 0 THEN 1 ELSE del),
                  !.cfg.rx1off = IF off <= MaxRx1Offset(r) THEN off ELSE m.cfg.rx1off,
                  !.cfg.rx2dr = IF DrDefined(r, rx2) THEN rx2 ELSE m.cfg.rx2dr,
-                 !.plan = CfListApplied(r, m.plan, ja.cflist)]
+                 !.plan = CfListApplied(r, m.plan, ja.cflist),
+                 \* (fixed plans: a channel mask in the CFList ends the join bias)
+                 !.jw.n = IF IsFixed(r) /\ CfListApplied(r, m.plan, ja.cflist) # m.plan THEN 0 ELSE @]
 
 \* ------------------------------------------------------------------ application setters
-AfterSetAdr(m, on) == [m EXCEPT !.cfg.adr = on, !.sess.adrCnt = IF on \/ ~Joined(m) THEN m.sess.adrCnt ELSE 0]
+AfterSetAdr(m, on) == [m EXCEPT !.cfg.adr = on, !.sess.adrCnt = IF on \/ ~Joined(m) THEN m.sess.adrCnt ELSE AdrZero]
 AfterSetDr(m, d) == [m EXCEPT !.cfg.dr = d]
 AfterAbp(m, nwk, app, addr) == [m EXCEPT !.act = "joined", !.devNonce = None, !.appKey = NoKey,
                                           !.sess = NewSess(nwk, app, addr), !.ovr = -1]
@@ -440,9 +464,13 @@ TxChoices(m, isJoin) ==
     IF IsFixed(r) THEN
        IF isJoin THEN {[freq |-> FixedUplinkFreq(r, c), dr |-> d, rx1f |-> FixedDownlinkFreq(r, c)] :
                           <<c, d>> \in {x \in (0..71) \X (0..14) : x[2] \in FixedJoinDrs(r, x[1])}}
+       \* data: the configured data rate on an enabled channel of its bandwidth class - or, while the join bias may
+       \* still be in force, an enabled 125 kHz channel of the preferred sub-band at the join data rate
        ELSE {[freq |-> FixedUplinkFreq(r, x[1]), dr |-> x[2], rx1f |-> FixedDownlinkFreq(r, x[1])] :
                  x \in {y \in (0..71) \X DefinedDrs(r) :
-                           MaskBit(m.plan.mask, y[1]) /\ FixedChannelBw(y[1]) = DrBw(r, y[2])}}
+                           /\ MaskBit(m.plan.mask, y[1]) /\ FixedChannelBw(y[1]) = DrBw(r, y[2])
+                           /\ \/ y[2] = m.cfg.dr
+                              \/ (m.jw.was /\ y[1] \div 8 = m.jw.sb - 1 /\ y[2] \in FixedJoinDrs(r, y[1]))}}
     ELSE IF ~DrDefined(r, m.cfg.dr) THEN {}
     ELSE {[freq |-> ChanUl(m.plan, i), dr |-> m.cfg.dr, rx1f |-> ChanDl(m.plan, i)] :
              i \in (IF isJoin THEN 0..(NumJoinChannels(r) - 1) ELSE UsableDyn(m.plan))}
